@@ -1818,6 +1818,19 @@ func xProgramBody(p *Prog, r *R, prof string) {
 					p.do(&Op{Name: "XLAgg", R: l, Agg: pickOf(r, []string{"AIntMin", "AIntMax", "ASum", "AIntSum"})})
 					if (t0 == at.TypeInt || t0 == at.TypeFloat) && zeros != 3 && !nan && r.chance(0.6) {
 						p.do(&Op{Name: "LSort", R: l})
+						if r.chance(0.5) {
+							// sorted, asked, then reversed (or an element deleted / popped): what was true of the sorted list no longer is
+							p.do(&Op{Name: "XLAgg", R: l, Agg: "AMin"})
+							p.do(&Op{Name: "XLAgg", R: l, Agg: "AMax"})
+							switch n2 := p.m.list(l).Count(); {
+							case n2 > 1 && r.chance(0.3):
+								p.do(&Op{Name: "LDelete", R: l, Idxs: []int64{int64(pickOf(r, []int{0, n2 - 1}))}})
+							case n2 > 1 && r.chance(0.2):
+								p.do(&Op{Name: "LPop", R: l})
+							default:
+								p.do(&Op{Name: "LReverse", R: l})
+							}
+						}
 					} else {
 						p.do(&Op{Name: "LReverse", R: l})
 					}
